@@ -39,6 +39,7 @@ import (
 	"github.com/lni/dragonboat/v4/internal/logdb"
 	"github.com/lni/dragonboat/v4/internal/registry"
 	"github.com/lni/dragonboat/v4/internal/rsm"
+	"github.com/lni/dragonboat/v4/internal/server"
 	"github.com/lni/dragonboat/v4/internal/settings"
 	"github.com/lni/dragonboat/v4/internal/vfhelp"
 	"github.com/lni/dragonboat/v4/internal/vfs"
@@ -50,7 +51,10 @@ import (
 const (
 	nsMaxID      = 8 // replica ids 1..5 initial voters, 6..8 spares that can be added
 	nsTopDir     = "nodesim"
-	nsOverhead   = 1000000 // CompactionOverhead: the log is never compacted (no InstallSnapshot, see findings/E9.md)
+	nsOverhead   = 1000000 // CompactionOverhead when log compaction is not wanted
+	// nodehost.go streamPushDelayTick / streamConfirmedDelayTick
+	nsStreamPushDelayTick      = 10
+	nsStreamConfirmedDelayTick = 2
 	nsC12Slack   = 8       // ticks after the deadline within which a terminal result must exist
 	nsMaxTraceLn = 400
 )
@@ -71,12 +75,13 @@ type nsOpts struct {
 	preVote         bool
 	quiesce         bool
 	snapshotEntries uint64
+	overhead        uint64
 	seed            int64
 }
 
 func (o nsOpts) String() string {
-	return fmt.Sprintf("voters=%d E=%d H=%d cq=%t pv=%t quiesce=%t snapEntries=%d seed=%d",
-		o.voters, o.electionRTT, o.heartbeatRTT, o.checkQuorum, o.preVote, o.quiesce, o.snapshotEntries, o.seed)
+	return fmt.Sprintf("voters=%d E=%d H=%d cq=%t pv=%t quiesce=%t snapEntries=%d overhead=%d seed=%d",
+		o.voters, o.electionRTT, o.heartbeatRTT, o.checkQuorum, o.preVote, o.quiesce, o.snapshotEntries, o.overhead, o.seed)
 }
 
 // nsSM is the instrumented user state machine (regular, in memory).
@@ -156,6 +161,7 @@ type nsReq struct {
 	done     bool
 	code     string
 	fair     bool
+	silent   bool
 }
 
 type nsSim struct {
@@ -176,6 +182,7 @@ type nsSim struct {
 
 	trace   []string
 	failing bool
+	quiet   bool
 	rounds  int
 	inFair  bool
 
@@ -279,6 +286,9 @@ func (s *nsSim) cleanup() {
 }
 
 func (s *nsSim) logf(format string, args ...interface{}) {
+	if s.quiet {
+		return
+	}
 	s.trace = append(s.trace, fmt.Sprintf(format, args...))
 }
 
@@ -321,12 +331,13 @@ func (s *nsSim) known(sig string, format string, args ...interface{}) bool {
 func (s *nsSim) dump(sig, msg string) {
 	s.t.Logf("nodesim %s: %s", sig, msg)
 	s.t.Logf("options: %s", s.opts)
-	from := 0
-	if len(s.trace) > nsMaxTraceLn {
-		from = len(s.trace) - nsMaxTraceLn
-		s.t.Logf("(trace truncated, %d earlier lines)", from)
-	}
-	for i := from; i < len(s.trace); i++ {
+	n := len(s.trace)
+	for i := 0; i < n; i++ {
+		if n > nsMaxTraceLn && i == nsMaxTraceLn*3/4 {
+			skip := n - nsMaxTraceLn
+			s.t.Logf("  ... (%d trace lines omitted)", skip)
+			i += skip
+		}
 		s.t.Logf("  %4d %s", i, s.trace[i])
 	}
 	s.t.Logf("state: %s", s.describe())
@@ -406,7 +417,7 @@ func (s *nsSim) guard(what string, f func()) {
 
 func (s *nsSim) startReplica(r *nsReplica) {
 	id := r.id
-	snapdir := s.fs.PathJoin(nsTopDir, fmt.Sprintf("snap-%d-%d", s.shardID, id))
+	snapdir := s.snapDir(id)
 	if err := s.fs.MkdirAll(snapdir, 0755); err != nil {
 		panic(err)
 	}
@@ -423,7 +434,7 @@ func (s *nsSim) startReplica(r *nsReplica) {
 		PreVote:                s.opts.preVote,
 		Quiesce:                s.opts.quiesce,
 		SnapshotEntries:        s.opts.snapshotEntries,
-		CompactionOverhead:     nsOverhead,
+		CompactionOverhead:     s.opts.overhead,
 		IsNonVoting:            r.nonVoting,
 		DisableAutoCompactions: true,
 	}
@@ -494,15 +505,20 @@ func (s *nsSim) onSend(from *nsReplica, m pb.Message) {
 	case pb.RequestVote, pb.RequestPreVote:
 		from.campaign = true
 		s.votesSent++
-	case pb.InstallSnapshot:
-		s.outOfModel = "install-snapshot"
-		return
 	}
 	if m.To == 0 || m.To > nsMaxID {
 		return
 	}
 	if s.blocked[from.id][m.To] {
 		s.dropped++
+		if m.Type == pb.InstallSnapshot {
+			s.guard("snapshot unref", func() {
+				if err := m.Snapshot.Unref(); err != nil {
+					panic(err)
+				}
+			})
+			s.snapshotStatus(from, m.To, true, nsStreamPushDelayTick)
+		}
 		return
 	}
 	if s.held[from.id][m.To] {
@@ -514,11 +530,132 @@ func (s *nsSim) onSend(from *nsReplica, m pb.Message) {
 
 func (s *nsSim) deliver(m pb.Message) {
 	to := s.reps[m.To]
+	switch m.Type {
+	case pb.InstallSnapshot:
+		s.deliverSnapshot(m)
+		return
+	case pb.SnapshotReceived:
+		// NodeHost.HandleMessageBatch turns it into a delayed SnapshotStatus
+		if to.alive {
+			to.n.mq.AddDelayed(pb.Message{Type: pb.SnapshotStatus, From: m.From}, nsStreamConfirmedDelayTick)
+		}
+		return
+	}
 	if !to.alive {
 		s.dropped++
 		return
 	}
 	to.n.mq.Add(m)
+}
+
+// snapshotStatus mirrors messageHandler.HandleSnapshotStatus on the sender.
+func (s *nsSim) snapshotStatus(sender *nsReplica, to uint64, failed bool, delay uint64) {
+	if sender.alive {
+		sender.n.mq.AddDelayed(pb.Message{Type: pb.SnapshotStatus, From: to, Reject: failed}, delay)
+	}
+}
+
+// deliverSnapshot mirrors what the transport does with an InstallSnapshot
+// message: the snapshot file is copied (chunks) into a receiving directory of the
+// target replica, finalized (flag file + rename, transport.Chunk.finalize), the
+// message with the rewritten path is queued at the target, the target's NodeHost
+// answers SnapshotReceived and the sender is told the outcome.
+func (s *nsSim) deliverSnapshot(m pb.Message) {
+	from, to := s.reps[m.From], s.reps[m.To]
+	// the transport releases the sender's reference when the job ends
+	defer s.guard("snapshot unref", func() {
+		if err := m.Snapshot.Unref(); err != nil {
+			panic(err)
+		}
+	})
+	fail := func(why string) {
+		s.logf("    snapshot %d r%d -> r%d not delivered: %s", m.Snapshot.Index, m.From, m.To, why)
+		s.snapshotStatus(from, m.To, true, nsStreamPushDelayTick)
+	}
+	if !to.alive {
+		fail("target down")
+		return
+	}
+	if len(m.Snapshot.Files) > 0 || m.Snapshot.Witness || m.Snapshot.Dummy {
+		s.outOfModel = "snapshot-kind"
+		return
+	}
+	ok := false
+	var out pb.Message
+	s.guard("snapshot transfer", func() {
+		data, err := nsReadFile(s.fs, m.Snapshot.Filepath)
+		if err != nil {
+			fail("source file is gone: " + err.Error())
+			return
+		}
+		dir := s.snapDir(to.id)
+		env := server.NewSSEnv(func(uint64, uint64) string { return dir },
+			s.shardID, to.id, m.Snapshot.Index, m.From, server.ReceivingMode, s.fs)
+		if err := env.CreateTempDir(); err != nil {
+			fail("cannot create receiving dir: " + err.Error())
+			return
+		}
+		base := s.fs.PathBase(m.Snapshot.Filepath)
+		if err := nsWriteFile(s.fs, s.fs.PathJoin(env.GetTempDir(), base), data); err != nil {
+			panic(err)
+		}
+		o := m.Snapshot
+		// what arrives is the decoded wire form: no reference count, no compactor
+		ss := pb.Snapshot{FileSize: o.FileSize, Index: o.Index, Term: o.Term, Membership: o.Membership,
+			Checksum: o.Checksum, Dummy: o.Dummy, ShardID: o.ShardID, Type: o.Type, Imported: o.Imported,
+			OnDiskIndex: o.OnDiskIndex, Witness: o.Witness}
+		ss.Filepath = s.fs.PathJoin(env.GetFinalDir(), base)
+		if err := env.FinalizeSnapshot(&ss); err != nil {
+			env.MustRemoveTempDir()
+			if err == server.ErrSnapshotOutOfDate {
+				fail("out of date at the target")
+				return
+			}
+			panic(err)
+		}
+		out = m
+		out.Snapshot = ss
+		ok = true
+	})
+	if !ok {
+		return
+	}
+	m2 := out
+	s.flag("ev-snapshot-streamed")
+	s.logf("    snapshot %d streamed r%d -> r%d", m.Snapshot.Index, m.From, m.To)
+	to.n.mq.MustAdd(m2)
+	// messageHandler.HandleSnapshot on the receiving host
+	s.onSend(to, pb.Message{Type: pb.SnapshotReceived, From: to.id, To: m.From, ShardID: s.shardID})
+	s.snapshotStatus(from, m.To, false, nsStreamPushDelayTick)
+}
+
+func nsReadFile(fs vfs.IFS, path string) ([]byte, error) {
+	f, err := fs.Open(path)
+	if err != nil {
+		return nil, err
+	}
+	defer f.Close()
+	return io.ReadAll(f)
+}
+
+func nsWriteFile(fs vfs.IFS, path string, data []byte) error {
+	f, err := fs.Create(path)
+	if err != nil {
+		return err
+	}
+	if _, err := f.Write(data); err != nil {
+		_ = f.Close()
+		return err
+	}
+	if err := f.Sync(); err != nil {
+		_ = f.Close()
+		return err
+	}
+	return f.Close()
+}
+
+func (s *nsSim) snapDir(id uint64) string {
+	return s.fs.PathJoin(nsTopDir, fmt.Sprintf("snap-%d-%d", s.shardID, id))
 }
 
 func (s *nsSim) release(from, to uint64) {
@@ -626,8 +763,11 @@ func (s *nsSim) stepReplica(r *nsReplica) {
 			panic(err)
 		}
 		if !pb.IsEmptySnapshot(ud.Snapshot) {
-			s.outOfModel = "snapshot-in-update"
-			return
+			// engine.onSnapshotSaved
+			if err := n.removeSnapshotFlagFile(ud.Snapshot.Index); err != nil {
+				panic(err)
+			}
+			s.flag("ev-snapshot-installed")
 		}
 		if !ud.FastApply {
 			if err := n.processSnapshot(ud); err != nil {
@@ -862,7 +1002,9 @@ func (s *nsSim) poll() {
 }
 
 func (s *nsSim) onResult(q *nsReq, res RequestResult) {
-	s.logf("    result #%d %s via r%d: %s", q.id, q.kind, q.rep.id, res.code)
+	if !q.silent || res.Completed() {
+		s.logf("    result #%d %s via r%d: %s", q.id, q.kind, q.rep.id, res.code)
+	}
 	s.flag("res-" + q.kind + "-" + res.code.String())
 	if !res.Completed() {
 		return
@@ -1182,7 +1324,27 @@ func (s *nsSim) fairPhase(clientPick func(n int) int) {
 		}
 		return true
 	}
+	q2Checked := 0
 	for i := 0; i < budgetB && s.outOfModel == ""; i++ {
+		// Q2 (findings/E9.md): the client sits on a replica that joined while every
+		// voting member is quiescent; nobody ever talks to it. Tolerated as a known
+		// finding, the client then moves to a voting member so that the search goes on.
+		if completed == 0 && client != nil && client.alive && i-q2Checked >= 40*E {
+			q2Checked = i
+			if s.joinerIgnored(client) {
+				if !s.known("nodesim-joiner-ignored-by-quiescent-shard",
+					"r%d was added by a committed membership change and started while all voting members were quiescent: no replica ever sends it anything (quiescent leaders send no heartbeats, it has no membership to campaign with), the %d proposals submitted through it were all dropped, it never catches up; %s", client.id, submitted, s.describe()) {
+					return
+				}
+				client = nil
+				for _, r := range s.aliveReps() {
+					if _, ok := r.n.sm.GetMembership().Addresses[r.id]; ok && client == nil {
+						client = r
+						s.logf("    fair phase client moves to r%d", client.id)
+					}
+				}
+			}
+		}
 		if i%E == 0 {
 			if client == nil || !client.alive {
 				client = pickClient()
@@ -1195,9 +1357,15 @@ func (s *nsSim) fairPhase(clientPick func(n int) int) {
 					completed++
 				}
 				if completed == 0 {
+					s.quiet = submitted >= 3
 					cur = s.propose(client, uint64(3*E))
+					s.quiet = false
 					if cur != nil {
 						submitted++
+						cur.silent = submitted > 3
+						if submitted == 4 {
+							s.logf("    (further proposals of the fair phase client and their results are not logged unless Completed)")
+						}
 					}
 				}
 			}
@@ -1231,6 +1399,18 @@ func (s *nsSim) fairPhase(clientPick func(n int) int) {
 		return
 	}
 	s.violate("nodesim-replica-not-caught-up", "a running member replica did not catch up to applied index %d within %d fault free ticks; %s", s.maxApplied(), budgetB, s.describe())
+}
+
+// joinerIgnored: r has not applied its own addition yet and every running voting
+// member is quiescent.
+func (s *nsSim) joinerIgnored(r *nsReplica) bool {
+	mem := r.n.sm.GetMembership()
+	_, v := mem.Addresses[r.id]
+	_, nv := mem.NonVotings[r.id]
+	if v || nv {
+		return false
+	}
+	return s.allQuiescent()
 }
 
 // allQuiescent: every running voting member (by its own applied membership) is
